@@ -332,6 +332,20 @@ def gen_C07(rng, tier):
         for i in range(k):
             cmds.append(('drain', i, 40, rng.choice([0, 1, 2, 5])))
         out.append(Q({'doc': d, 'cmds': cmds}))
+    # thread schedules by enumeration: every single preemption point of one evaluation, another evaluation of the
+    # same path object run there
+    for _ in range(sized(tier, 24, 200)):
+        dA, dB = rand_doc(rng), rand_doc(rng)
+        p = derive_path(rng, dA, CHILD + ('rec', 'pred', 'parent'), maxextra=1, pred_depth=1, perturb=0.0)
+        if not has_kind(p, ('pred',)) or rng.random() < 0.5:
+            i = rng.randint(0, len(p))
+            p = qcase.fix_path(p[:i] + [('pred', rng.choice([('user', 'data'), ('user', 'data'), ('user', 'depth'),
+                                                             ('user', 'data_eq', rng.choice(qcase.SCALARS)),
+                                                             ('user', 'name_eq', rng.choice(qcase.KEYS + [0, 1]))]))] + p[i:])
+        if rng.random() < 0.6:
+            # a filter judged on several candidates: wildcard (or descent), then the filter
+            p = [rng.choice([('gwc', True, False), ('rec', False)]), ('pred', ('user', 'data'))] + p[-1:]
+        out.append({'family': 'p', 'case': {'docA': dA, 'docB': rng.choice([dB, copy.deepcopy(dA)]), 'path': p, 'points': sized(tier, 90, 600)}})
     # first multi-valued step directly on the root: the restart shape
     for _ in range(sized(tier, 300, 3000)):
         d = rand_doc(rng)
@@ -343,6 +357,11 @@ def gen_C07(rng, tier):
 def oracle_C07(case, o):
     """once StopIteration, always StopIteration (per iterator)"""
     errs = []
+    if case['family'] == 'p':
+        if o[2][0][1] != 'ok':
+            return ["an evaluation preempted at line event(s) %s of %d by another evaluation of the same path object yields "
+                    "something else than alone" % ([x[1] for x in o[2][0][2]], o[2][1][1])]
+        return []
     cmds = case['case']['cmds']
     stopped = {}
     idx = 0
@@ -366,6 +385,8 @@ def oracle_C07(case, o):
 
 
 def nontrivial_C07(case, o):
+    if case['family'] == 'p':
+        return o[2][1][1] >= 30
     return sum(1 for c in case['case']['cmds'] if c[0] == 'iter') >= 2 and n_results(o) >= 2
 
 
